@@ -385,7 +385,16 @@ pub fn exec<'a, T: IteTable<'a, BddPtr<'a>> + Default>(
                 }
             }
             Op::Var(x, p) => b.var(VarLabel::new_usize(*x), *p),
-            Op::NewVar(p) => b.new_var(*p).1,
+            // through the polarity-specific wrappers on every other call
+            Op::NewVar(p) => {
+                if pool.len() % 2 == 0 {
+                    b.new_var(*p).1
+                } else if *p {
+                    b.new_pos().1
+                } else {
+                    b.new_neg().1
+                }
+            }
             Op::Neg(i) => b.negate(pool[*i]),
             Op::And(i, j) => b.and(pool[*i], pool[*j]),
             Op::Or(i, j) => b.or(pool[*i], pool[*j]),
